@@ -256,6 +256,11 @@ type walWrap struct {
 	Tokens     int
 	cs         *consensus.State
 	tokenRes   chan bool
+	// Acked: the records of this incarnation whose write was acknowledged as synced (WriteSync / FlushAndSync returned
+	// nil after them), in write order; pending: written, not yet acknowledged (C15: every acknowledged record must be
+	// returned by any later reader)
+	Acked   []consensus.WALMessage
+	pending []consensus.WALMessage
 }
 
 func (w *walWrap) stat() int64 {
@@ -292,7 +297,16 @@ func (w *walWrap) Write(msg consensus.WALMessage) error {
 	}
 	w.c.Point("wal.Write:before")
 	w.count(msg)
-	return w.WAL.Write(msg)
+	err := w.WAL.Write(msg)
+	if err == nil {
+		w.pending = append(w.pending, msg)
+	}
+	return err
+}
+
+func (w *walWrap) ack() {
+	w.Acked = append(w.Acked, w.pending...)
+	w.pending = nil
 }
 
 func (w *walWrap) WriteSync(msg consensus.WALMessage) error {
@@ -303,10 +317,12 @@ func (w *walWrap) WriteSync(msg consensus.WALMessage) error {
 	if err := w.WAL.Write(msg); err != nil {
 		return err
 	}
+	w.pending = append(w.pending, msg)
 	w.c.Point("wal.WriteSync:written-not-synced")
 	err := w.WAL.FlushAndSync()
 	if err == nil {
 		w.HeadSynced = w.stat()
+		w.ack()
 	}
 	w.c.Point("wal.WriteSync:after")
 	return err
@@ -317,6 +333,7 @@ func (w *walWrap) FlushAndSync() error {
 	err := w.WAL.FlushAndSync()
 	if err == nil {
 		w.HeadSynced = w.stat()
+		w.ack()
 	}
 	w.c.Point("wal.FlushAndSync:after")
 	return err
